@@ -983,6 +983,17 @@ func genC04(r *world.Rng, w *world.World, big bool) {
 		switch form {
 		case "clause":
 			c = ref.Con{Lits: distinctLits(r, n, r.Range(1, min(n, 4))), K: 1}
+			if r.Bool(0.08) {
+				// a clause may write a literal more than once: it still is the same clause
+				x := c.Lits[r.Intn(len(c.Lits))]
+				c.Lits = append(c.Lits, x)
+				if r.Bool(0.4) {
+					c.Lits = append(c.Lits, x)
+				}
+				if r.Bool(0.5) {
+					c.Lits[0], c.Lits[len(c.Lits)-1] = c.Lits[len(c.Lits)-1], c.Lits[0]
+				}
+			}
 			if wcnf && r.Bool(0.03) {
 				c.Lits = []int{} // empty soft clause: always violated
 			}
